@@ -70,7 +70,8 @@ def args_in_range(chk, name, eff, pc, found=None):
     for pn, ty in zip(pnames, sig):
         v = argmap.get(pn)
         if isinstance(ty, nt.Integer) and isinstance(v, (Sym, Const)):
-            lo, hi = INT_RANGE[str(ty)]
+            w_ = int(ty.bitwidth)
+            lo, hi = (-(1 << (w_ - 1)), (1 << (w_ - 1)) - 1) if ty.signed else (0, (1 << w_) - 1)
             try:
                 t = _glue.ex_num(v)
             except Exception:
